@@ -633,6 +633,39 @@ pub fn pending_class(w: &World, seg: &Segment, cut: usize, first_op_of_seg_model
     if ins { "inserts-pending" } else if tomb { "tombstones-only" } else { "nothing-pending" }.to_string()
 }
 
+/// Power-loss reading of `allowed_states`: the first candidate is what must at least be there
+/// (operations acknowledged inside an un-ended skip_sync batch are not owed), the second what may
+/// be there in addition.
+pub fn allowed_states_power(w: &World, seg: &Segment, cut: usize, first_op_of_seg_model: &Model) -> (Vec<Model>, bool) {
+    let (inflight, last_end) = position(&seg.log, cut);
+    let snap_after = |i: usize| -> Model { w.snaps.get(i).cloned().unwrap_or_default() };
+    let before = |i: usize| -> Model { if i == 0 { Model::default() } else { snap_after(i - 1) } };
+    let mut cands = Vec::new();
+    let mut may_fail = false;
+    match inflight {
+        Some(i) => {
+            let a = before(i);
+            let b = snap_after(i);
+            if !a.exists {
+                may_fail = true;
+            }
+            cands.push(a.recovered_durable());
+            cands.push(b.recovered());
+        }
+        None => {
+            let a = match last_end {
+                Some(j) => snap_after(j),
+                None => first_op_of_seg_model.clone(),
+            };
+            cands.push(a.recovered_durable());
+            if a.undurable_pending > 0 {
+                cands.push(a.recovered());
+            }
+        }
+    }
+    (cands, may_fail)
+}
+
 pub fn allowed_states(w: &World, seg: &Segment, cut: usize, first_op_of_seg_model: &Model) -> (Vec<Model>, bool) {
     let (inflight, last_end) = position(&seg.log, cut);
     let snap_after = |i: usize| -> Model { w.snaps.get(i).cloned().unwrap_or_default() };
